@@ -110,9 +110,10 @@ func (c *VCtx) embedAddr(base *Term, structT types.Type, field string, ft types.
 	is := c.declareFun(inv, []Sort{SRef}, SRef)
 	c.fact(T(SBool, fmt.Sprintf("(and (= (%s (%s %s)) %s) (not (= (%s %s) null)))", is, s, base.S, base.S, s, base.S)))
 	t := TG(SRef, types.NewPointer(ft), fmt.Sprintf("(%s %s)", s, base.S))
-	info := &embedInfo{base: base, path: []string{field}, typ: ft}
+	info := &embedInfo{base: base, path: []string{field}, typ: ft, chain: []embedLink{{base, structT}}}
 	if up, ok := c.embedded[base.S]; ok {
-		info = &embedInfo{base: up.base, path: append(append([]string{}, up.path...), field), typ: ft}
+		info = &embedInfo{base: up.base, path: append(append([]string{}, up.path...), field), typ: ft,
+			chain: append(append([]embedLink{}, up.chain...), embedLink{base, structT})}
 	}
 	c.embedded[t.S] = info
 	return t
@@ -338,8 +339,7 @@ func (c *VCtx) execInstr(fr *Frame, st *State, in ssa.Instruction, incoming map[
 	case *ssa.MakeChan:
 		r := c.freshRef(st, "chan")
 		r.GT = x.Type()
-		cl := c.heap(st, "G:closed", ArrSort(SRef, SBool))
-		c.setHeap(st, "G:closed", Store(cl, r, False))
+		c.fact(Gt(c.closedAt(r), c.now(st)))
 		fr.env[x] = r
 	case *ssa.MakeClosure:
 		fv := &FnVal{Fn: x.Fn.(*ssa.Function)}
@@ -460,6 +460,19 @@ func (c *VCtx) edge(fr *Frame, st *State, from, to *ssa.BasicBlock, cond *Term, 
 		return
 	}
 	ns.pc = c.name("pc", ns.pc)
+	// a TryLock result decides on this edge whether the lock is held
+	for k, h := range ns.held {
+		if h.tryCond == nil {
+			continue
+		}
+		if cond.S == Not(h.tryCond).S {
+			delete(ns.held, k)
+		} else if cond.S == h.tryCond.S {
+			h2 := *h
+			h2.tryCond = nil
+			ns.held[k] = &h2
+		}
+	}
 	if to.Dominates(from) {
 		// back edge: prove the loop invariant is preserved
 		c.loopBack(fr, fr.loops[to], ns, from)
@@ -596,9 +609,6 @@ func (c *VCtx) modSet(fn *ssa.Function, blocks map[*ssa.BasicBlock]bool, depth i
 				mods[v] = ArrSort(SRef, ArrSort(sortOf(mt.Key()), sortOf(mt.Elem())))
 			case *ssa.Alloc, *ssa.MakeSlice, *ssa.MakeChan, *ssa.MakeMap:
 				mods["G:alloc"] = ArrSort(SRef, SBool)
-				if _, ok := x.(*ssa.MakeChan); ok {
-					mods["G:closed"] = ArrSort(SRef, SBool)
-				}
 				if ms, ok := x.(*ssa.MakeSlice); ok {
 					es := sortOf(ms.Type().Underlying().(*types.Slice).Elem())
 					mods[elemHeapName(es)] = ArrSort(SRef, ArrSort(SInt, es))
@@ -673,7 +683,7 @@ func (c *VCtx) callModSet(fn *ssa.Function, cc *ssa.CallCommon, depth int) (map[
 			d, _, _ := mapHeapNames(mt)
 			mods[d] = ArrSort(SRef, ArrSort(sortOf(mt.Key()), SBool))
 		case "close":
-			mods["G:closed"] = ArrSort(SRef, SBool)
+			mods["G:now"] = SInt
 		}
 		return mods, false
 	}
